@@ -279,6 +279,7 @@ type State struct {
 	path    []string
 	effects []Effect
 	dead    bool
+	retTag  string
 }
 
 func (s *State) clone() *State {
